@@ -81,6 +81,24 @@ def render_wrapped(v, wrapper, src, data):
         return ("err", X.ERRMAP.get(name, "other:" + name))
 
 
+def family_corpus():
+    """A fixed part of every run: each *family* of folded constant that is written back into generated code next to a
+    run-time operator of another precedence, crossed with the operators it can meet (not seed inputs: the whole product)."""
+    A, c, n = X.A, X.c, X.n
+    negs = [[A("un"), "-", c(2)], [A("un"), "-", c(3)], [A("bin"), "-", c(1), c(4)],                      # negative ints
+            [A("bin"), "/", [A("un"), "-", c(5)], c(2)], [A("bin"), "/", c(7), [A("un"), "-", c(2)]],     # negative floats
+            [A("bin"), "*", [A("bin"), "/", c(3), c(2)], [A("un"), "-", c(1)]],
+            [A("bin"), "//", [A("un"), "-", c(7)], c(2)], [A("bin"), "%", [A("un"), "-", c(7)], c(3)]]
+    out = []
+    for neg in negs:
+        for var in (n("i"), n("j"), [A("item"), n("xs"), c(0)]):
+            out += [[A("bin"), "**", neg, var], [A("bin"), "**", var, neg], [A("un"), "-", [A("bin"), "**", neg, var]],
+                    [A("bin"), "-", var, neg], [A("bin"), "*", neg, var], [A("filter"), [A("bin"), "**", neg, var], "abs"],
+                    [A("bin"), "%", neg, var], [A("bin"), "//", neg, var], [A("item"), [A("list"), neg, var], c(0)],
+                    [A("cmp"), neg, ["lt", var]], [A("cat"), neg, var]]
+    return out
+
+
 def run(ctx, res):
     jinja2 = core.import_jinja()
     rng = ctx.rng("c08")
@@ -92,7 +110,7 @@ def run(ctx, res):
     ntrees = ctx.pick(900, 8000) * (4 if broken else 1)      # a broken proof/tie: search harder for a failing input
     maxd = ctx.pick(4, 5)
     g = X.Gen(rng, consts=0.75, mismatch=0.12)
-    trees = [g.any(rng.randrange(1, maxd + 1)) for _ in range(ntrees)]
+    trees = family_corpus() + [g.any(rng.randrange(1, maxd + 1)) for _ in range(ntrees)]
     lifted, lenvs = [], []
     for t in trees:
         env = {}
